@@ -74,7 +74,7 @@ def check(ctx):
         "events_fired": sum(s["events_fired"] for s in sums),
         "event_hist": sums[0].get("event_hist"),
         "runs": [{k: s[k] for k in ("mode", "env", "stride", "cases", "events_fired", "wall_s")} for s in sums],
-        "programs": 8, "call_outs_per_program": ctx.pick(3, 4),
+        "programs": 10, "call_outs_per_program": ctx.pick(3, 4),
     }
     return vf.finish(ctx, "exploration", cov, assumptions=[
         "the correctness of stack maps, funcdata and write barriers is observed only through survival and result integrity under the forced "
